@@ -705,6 +705,12 @@ def allow_list_reader_strict(ctx, inst):
             k = set(ctx.roots(v[4][2]))
             if not (len(k) == 1 and re.match(r"^P:%s#\d+$" % re.escape(f.path), list(k)[0])):
                 continue
+            # a *query*: it answers a response struct with a `decimals` field (other readers — an owner-only removal that
+            # first tests `has(..)` — are not the function pair creation learns decimals from)
+            m_ = re.search(r"Result<([\w:]+),", f.body.locals[0]["ty"])
+            adt_ = P.adts.get(m_.group(1)) if m_ else None
+            if adt_ is None or adt_.get("kind") != "struct" or "decimals" not in {x_["name"] for x_ in adt_["variants"][0]["fields"]}:
+                continue
             n += 1
             want_d = {"mload(%s)[%s]" % (ALLOW, list(k)[0])}
             for (b2, i2, cls2, v2) in common.ok_exit_blocks(P, f):
